@@ -293,6 +293,8 @@ def run_threaded(res: Result, seed: int) -> None:
     lock = threading.Lock()
     state: Dict[str, str] = {}
     problems: List[str] = []
+    injected: List[Tuple[str, int]] = []          # appended (under the lock) before the datagram is handed to the instance
+    withdrawn_meanwhile: List[str] = []
     T = TYPES[0]
 
     class L(ServiceListener):
@@ -306,7 +308,14 @@ def run_threaded(res: Result, seed: int) -> None:
                 if kind == "A":
                     # lookups from inside add_service (browser thread) must see the record
                     if not any(isinstance(r, d.DNSPointer) and r.alias.lower() == name.lower() for r in zc.cache.entries_with_name(T)):
-                        problems.append("add_service(%s): PTR not in the cache" % name)
+                        # the callback runs on the browser thread, later than the datagram was processed on the loop thread: a
+                        # goodbye injected after the announcement may legitimately have removed the record again by now
+                        mine = [ttl for (n, ttl) in injected if n.lower() == name.lower()]
+                        last_pos = max((i for i, ttl in enumerate(mine) if ttl > 0), default=-1)
+                        if any(ttl == 0 for ttl in mine[last_pos + 1:]):
+                            withdrawn_meanwhile.append(name)
+                        else:
+                            problems.append("add_service(%s): PTR not in the cache" % name)
                 state[name.lower()] = kind
 
         def add_service(self, zc: Any, t: str, n: str) -> None:
@@ -330,10 +339,14 @@ def run_threaded(res: Result, seed: int) -> None:
                     inst = inst.upper()
                 ttl = rng.choice([0, 0, 1, 4500])
                 steps.append((inst, ttl))
+                with lock:
+                    injected.append((inst, ttl))
                 rig.inject(zc, R.build_response([(("PTR", T, (inst,)), ttl, False)], id_=i + 1))
                 time.sleep(rng.choice([0.0, 0.002, 0.02]))
             time.sleep(0.4)
             res.mon("c04.threaded")
+            if withdrawn_meanwhile:
+                res.obs("threaded_add_callback_ran_after_a_later_goodbye_removed_the_record", len(withdrawn_meanwhile))
             with lock:
                 live = {k for k, v in state.items() if v == "A"}
                 probs = list(problems)
